@@ -62,6 +62,12 @@ class OpsMixin:
                 for p2, b1 in ex.narrow(p1, b):
                     yield from self.binop(ex, p2, op, a1, b1, node)
             return
+        # numpy vectors (sequences a contract marked `ndarray`): arithmetic with a scalar is elementwise (broadcasting)
+        for vec, sca, swapped in ((a, b, False), (b, a, True)):
+            if isinstance(vec, VSeq) and vec.kind == "ndarray" and self.is_num(sca) and isinstance(op, (ast.Add, ast.Sub, ast.Mult)) \
+                    and vec.elem in (Int, Real):
+                yield p, self.np_elementwise(ex, p, op, vec, sca, swapped)
+                return
         if self.is_num(a) and self.is_num(b):
             kind, x, y = self.num_pair(a, b)
             if isinstance(op, ast.Add):
@@ -200,6 +206,27 @@ class OpsMixin:
         if isinstance(b, (VInt, VBool)):
             return VReal(self.RPOW(to_real(a), b.t if isinstance(b, VInt) else z3.If(b.t, 1, 0)))
         raise Unsupported("power with non-integer exponent")
+
+    def np_elementwise(self, ex, p, op, vec, sca, swapped):
+        """r[j] = vec[j] op sca (or sca op vec[j]) for every j; reals unless both are integers"""
+        as_int = vec.elem is Int and isinstance(sca, VInt)
+        if as_int and isinstance(op, ast.Mult) and not z3.is_int_value(z3.simplify(sca.t)):
+            as_int = False        # a symbolic product is the (real-valued) `rmul` abstraction: keep the vector in the reals
+        elem = Int if as_int else Real
+        r = V.fresh("npv", z3.SeqSort(elem.z))
+        j = V.fresh("nj", IntS)
+        x = vec.t[j] if as_int or vec.elem is Real else z3.ToReal(vec.t[j])
+        y = sca.t if as_int else to_real(sca)
+        if isinstance(op, ast.Add):
+            val = x + y
+        elif isinstance(op, ast.Mult):
+            # (the same abstraction of symbolic products as for scalars: `rmul`, operands in source order)
+            val = self.mul(ex, "int" if as_int else "real", y if swapped else x, x if swapped else y, None).t
+        else:
+            val = (y - x) if swapped else (x - y)
+        p.assume(z3.Length(r) == z3.Length(vec.t))
+        p.assume(z3.ForAll([j], z3.Implies(z3.And(j >= 0, j < z3.Length(vec.t)), r[j] == val), patterns=[r[j]]))
+        return VSeq(r, elem, "ndarray")
 
     REPEAT = {}
 
